@@ -158,6 +158,10 @@ def single_world(case):
     return evals, len(answers), known
 
 
+class Waypoint(Envs.PositionComponent):
+    """A user component derived from PositionComponent (a target the agent heads for), NOT the agent's position."""
+
+
 def crowd_case(case):
     """Many agents (beyond any small-population threshold) at coordinates that are not exactly representable in single
     precision; exact-position queries (leeway 0), whole-row boxes and removal from the middle."""
@@ -165,18 +169,29 @@ def crowd_case(case):
     kind, dims = WORLDS[case['world']]
     n = case['n']
     model = Core.Model(seed=1)
-    env = model.environment = mk(model, kind, dims, False)
+    if case.get('huge'):
+        env = model.environment = Envs.SpaceWorld(model, 2 ** 60, 3, 0)
+        kind, dims = 'space', [2 ** 60, 3, 0]
+    else:
+        env = model.environment = mk(model, kind, dims, False)
     cont = kind == 'space'
     nargs = 2 if kind == 'grid' else 3
     d3 = list(dims) + [0] * (3 - len(dims))
     agents, pos = [], []
+    kept = []          # the caller keeps references to position components it has seen (also of agents that left)
+    huge = case.get('huge')
     for i in range(n):
-        if cont:
+        if huge:
+            p = (2 ** 53 + i, 1, 0)                # integer coordinates beyond the exact range of doubles
+        elif cont:
             p = ((i % 39) * 0.1 + 0.05, (i % 7) * 0.3 + 0.1, 0.0 if d3[2] == 0 else (i % 3) * 0.7)
         else:
             p = (i % d3[0], (i // d3[0]) % d3[1], 0 if d3[2] == 0 else (i // (d3[0] * d3[1])) % d3[2])
         a = Core.Agent(f'c{i}', model)
+        if i % 2:      # attached before the agent is placed: some other point, never the agent's position
+            a.add_component(Waypoint(a, model, 0, 0, 0))
         env.add_agent(a, *p[:nargs])
+        kept.append(a[Envs.PositionComponent])
         agents.append(a)
         pos.append(p)
     live = list(range(n))
@@ -189,7 +204,7 @@ def crowd_case(case):
             if got != exp:
                 raise Violation(f'{n} agents: exact-position query at {pos[i]} (leeway 0)',
                                 expected=[a.id for a in exp], observed=[a.id for a in got])
-        got = env.get_agents_at(0, 0, 0, 10 ** 6)
+        got = env.get_agents_at(0, 0, 0, 2 ** 62)
         if got != [agents[j] for j in live]:
             raise Violation(f'{n} agents: all-embracing box is not all agents in joining order')
         # one agent is replaced by a newcomer elsewhere (the population size stays the same), then queried again
@@ -199,6 +214,7 @@ def crowd_case(case):
         newcomer = Core.Agent(f'x{rnd}', model)
         np_ = pos[(v + 1) % len(pos)]
         env.add_agent(newcomer, *np_[:nargs])
+        kept.append(newcomer[Envs.PositionComponent])
         agents.append(newcomer)
         pos.append(np_)
         live.append(len(agents) - 1)
@@ -388,6 +404,7 @@ def run(ctx):
     ctx.leg('single', worlds=len(cases), full_lattice=full)
     extra = [{'leg': 'crowd', 'world': wn, 'n': n} for wn in ('space4x3x0', 'space4x3x2', 'grid4x3', 'disc4x3x2')
              for n in ((3, 70) if not full else (3, 10, 70, 150))]
+    extra += [{'leg': 'crowd', 'world': 'space4x3x0', 'n': 60, 'huge': True}]
     extra += [{'leg': 'replaced_world', 'new': nw, 'via': via} for nw in ('space', 'grid') for via in ('set', 'assign')]
     for case in extra:
         if ctx.violations:
